@@ -101,34 +101,47 @@ Proof. exact pg_ident_cases. Qed.
     references each statement form writes, through which call; fragment listed in
     Qual/RefSkeleton.v).  That [plan_skel] agrees with the Go planners is the tie (stage
     [skel]: identical reference chains, statement by statement, on every generated change
-    set), not a proof; ModifyColumn / ModifyIndex / ModifyForeignKey / ModifyCheck /
-    primary-key changes and the schema-level statements are covered by the oracle stage
-    [plan] only.  Two statement forms do not qualify and are excluded by [change_ok]:
-    RenameObject, and index statements of a table value without a Schema (exhibited in
-    [C16_skeleton_unqualified_forms], both reproduced on the Go code: known findings). *)
+    set), not a proof; the fragment now includes ModifyColumn (enum types, int -> serial with
+    its CREATE/DROP SEQUENCE statements), ModifyIndex, ModifyForeignKey, ModifyCheck and
+    primary-key changes; serial -> other, generated / identity columns and the schema-level
+    statements are covered by the oracle stage [plan] only.  With the C16 repairs (RenameObject through enumIdent, schemaPrefix for every
+    DROP INDEX) no statement form is excluded any more; [reference r] leaves out only the NEW
+    name of ALTER TYPE ... RENAME TO, which is a definition and bare by SQL syntax. *)
 Theorem C16_skeleton_partial :
-  forall (pg : bool) (cs : list RefSkeleton.change), Forall change_ok cs ->
-  forall s r, In s (plan_skel pg cs) -> In r (s_refs s) ->
+  forall (pg : bool) (cs : list RefSkeleton.change),
+  forall s r, In s (plan_skel pg cs) -> In r (s_refs s) -> reference r ->
   ref_chain (Some []) r = ref_names r /\
   (forall q, q <> [] -> ref_chain (Some q) r = q :: ref_names r) /\
   ref_chain None r = opt_name (ref_own r) ++ ref_names r.
 Proof. exact skeleton_chains. Qed.
 
-Theorem C16_skeleton_unqualified_forms :
-  (exists cs s r, In s (plan_skel true cs) /\ In r (s_refs s) /\ ref_chain (Some qq) r = [e1]) /\
-  (exists cs s r, In s (plan_skel true cs) /\ In r (s_refs s) /\ ref_chain (Some qq) r = [ii]).
-Proof. exact skeleton_unqualified_forms. Qed.
+(** and no statement form writes a reference to an existing object through bare [Ident] *)
+Theorem C16_skeleton_no_bare_reference :
+  forall (pg : bool) (cs : list RefSkeleton.change) s n,
+  In s (plan_skel pg cs) -> ~ In (RBare n) (s_refs s).
+Proof.
+  intros pg cs s n Hs Hn. pose proof (skeleton_refs_qualifying pg cs) as K.
+  unfold stmts_ok in K. rewrite Forall_forall in K. specialize (K s Hs).
+  unfold stmt_ok in K. rewrite Forall_forall in K. exact (K _ Hn).
+Qed.
 
 (** * 3. CheckChangesScope *)
 
 (** Full statement (the property): for every qualifier, mode and change set in which every
-    ModifySchema carries a schema,
+    ModifySchema carries a named schema,
       [CheckChangesScope q mode cs = SOk <-> spec_accepts q mode cs]
     where [spec_accepts] = every change is allowed (no Add/DropSchema; ModifySchema only
     for in-place plans on the scoped schema) and at most ONE schema name is mentioned by
-    tables, their enum columns, ModifySchema and the other change kinds.
-    It is FALSE of the code, in both directions: *)
-Theorem C16_scope_refuted : accepts_too_much /\ rejects_too_much.
+    tables, their enum columns, RenameTable, ModifySchema and the other change kinds.
+    One direction holds (the repaired code never rejects what the property accepts): *)
+Theorem C16_scope_sound :
+  forall q mode cs, Forall named_modify cs ->
+  spec_accepts q mode cs -> CheckChangesScope q mode cs = SOk.
+Proof. exact scope_sound. Qed.
+
+(** the other is FALSE of the code (enum columns / enum objects of another schema are
+    accepted: pinned by sql/postgres TestPlanChanges/50): *)
+Theorem C16_scope_refuted : accepts_too_much.
 Proof. exact scope_refuted. Qed.
 
 (** What does hold.  (i) the code's exact acceptance condition, no hypothesis: *)
@@ -138,9 +151,9 @@ Theorem C16_scope_code :
   (forallb (change_allowed q mode) cs = true /\ (length (names_after cs []) <= 1)%nat).
 Proof. exact check_accepts_iff. Qed.
 
-(** (ii) the property itself on every change set outside the three deviations: enum
-    columns that name a schema name their table's, the change kinds CheckChangesScope
-    skips name no schema, no ModifySchema of a nil / unnamed schema. *)
+(** (ii) the property itself on every change set outside the two remaining deviations: enum
+    columns that name a schema name their table's, the object change kinds CheckChangesScope
+    skips name no schema (and no ModifySchema of a nil / unnamed schema). *)
 Theorem C16_scope_except :
   forall q mode cs, Forall local_change cs ->
   (CheckChangesScope q mode cs = SOk <-> spec_accepts q mode cs).
@@ -158,7 +171,8 @@ Print Assumptions C16_builder_requalify.
 Print Assumptions C16_builder_agnostic.
 Print Assumptions C16_builder_pg.
 Print Assumptions C16_skeleton_partial.
-Print Assumptions C16_skeleton_unqualified_forms.
+Print Assumptions C16_skeleton_no_bare_reference.
+Print Assumptions C16_scope_sound.
 Print Assumptions C16_scope_refuted.
 Print Assumptions C16_scope_code.
 Print Assumptions C16_scope_except.
@@ -203,8 +217,15 @@ Proof. vm_compute. reflexivity. Qed.
 (* C16_scope_*: the witnesses, and a change set of the agreeing class that is rejected *)
 Example ex_scope_refuted :
   CheckChangesScope (Some []) 2 w_enum = SOk /\ distinct (all_mentions w_enum) = 2%nat /\
-  CheckChangesScope (Some []) 2 w_empty = EMulti 2 /\ distinct (all_mentions w_empty) = 1%nat.
+  CheckChangesScope (Some []) 2 w_other = SOk /\ distinct (all_mentions w_other) = 2%nat.
 Proof. repeat split; vm_compute; reflexivity. Qed.
+
+(* C16_scope_sound: the repaired inputs -- rename across schemas rejected, empty table-schema
+   name with an enum of s1 next to a table of s1 accepted *)
+Example ex_scope_sound :
+  CheckChangesScope (Some []) 2 w_rename = EMulti 2 /\ CheckChangesScope (Some []) 2 w_empty = SOk /\
+  Forall named_modify w_empty /\ distinct (all_mentions w_empty) = 1%nat.
+Proof. repeat split; try (vm_compute; reflexivity). repeat constructor. Qed.
 
 Example ex_scope_except :
   let cs := [CAddTable (mkST (Some s1) [TEnum (Some s1)]); CDropTable (mkST (Some s2) [TPlain])] in
@@ -226,7 +247,6 @@ Proof. vm_compute. reflexivity. Qed.
 Example ex_skeleton :
   let t := mkTab (mkObj (Some m_) t_) [mkCol c_ (Some (Some m_, [101])) true] [mkIdx [105] [c_] false true]
                  [mkFk [c_] (mkObj (Some m_) [117])] true in
-  Forall change_ok [RefSkeleton.AddTable t] /\
   plan_chains true (Some q_) [RefSkeleton.AddTable t] =
     [ (false, h_create_table, [[q_; t_]; [q_; [101]]; [q_; [117]]]);
       (true, h_drop_table, [[q_; t_]]);
@@ -235,9 +255,26 @@ Example ex_skeleton :
       (false, h_comment_on, [[q_; t_]]); (true, h_comment_on, [[q_; t_]]);
       (false, h_comment_on, [[q_; t_; c_]]); (true, h_comment_on, [[q_; t_; c_]]);
       (false, h_comment_on, [[q_; [105]]]); (true, h_comment_on, [[q_; [105]]]) ].
-Proof. split; [repeat constructor; discriminate|vm_compute; reflexivity]. Qed.
+Proof. vm_compute. reflexivity. Qed.
 
-Example ex_skeleton_unqualified :
-  plan_chains true (Some q_) [RefSkeleton.RenameObject e1 e2] =
-    [ (false, h_alter_type, [[e1]; [e2]]); (true, h_alter_type, [[e2]; [e1]]) ].
+Definition e1 : bytes := [101; 49].  Definition e2 : bytes := [101; 50].  Definition ii : bytes := [105].
+Example ex_skeleton_repaired :
+  plan_chains true (Some q_) [RefSkeleton.RenameObject (Some m_) e1 (Some m_) e2;
+                              RefSkeleton.AddTable (mkTab (mkObj None t_) [] [mkIdx ii [] false false] [] false)] =
+    [ (false, h_alter_type, [[q_; e1]; [e2]]); (true, h_alter_type, [[q_; e2]; [e1]]);
+      (false, h_create_table, [[q_; t_]]); (true, h_drop_table, [[q_; t_]]);
+      (false, h_create_index, [[q_; t_]]); (true, h_drop_index, [[q_; ii]]) ].
+Proof. vm_compute. reflexivity. Qed.
+
+(* the extended fragment: type change to an enum, int -> serial (sequence statements), a
+   foreign key moved to another table *)
+Example ex_skeleton_modify :
+  let t := mkTab (mkObj (Some m_) t_) [] [] [] false in
+  plan_chains true (Some []) [RefSkeleton.ModifyTable t
+     [ModifyColumn c_ None (Some (Some m_, e1)) true false false true;
+      ModifyColumn ii None None true true false false;
+      ModifyForeignKey (mkFk [c_] (mkObj (Some m_) [117])) (mkFk [c_] (mkObj (Some m_) [118]))]] =
+    [ (false, h_create_sequence, [[seq_name t_ ii]; [t_; ii]]); (true, h_drop_sequence, [[seq_name t_ ii]]);
+      (false, h_alter_table, [[t_]; [e1]; [[118]]]); (true, h_alter_table, [[t_]; [[117]]]);
+      (false, h_comment_on, [[t_; c_]]); (true, h_comment_on, [[t_; c_]]) ].
 Proof. vm_compute. reflexivity. Qed.
